@@ -1541,6 +1541,24 @@ class _Recompile(ast.NodeTransformer):
 
 
 # ----------------------------------------------------------------------- N4 conditional values
+def _nested_ifexp(e, bound=frozenset()):
+    """first conditional expression in `e` whose test does not mention a comprehension / lambda variable in scope"""
+    if isinstance(e, ast.IfExp) and not ({n.id for n in ast.walk(e.test) if isinstance(n, ast.Name)} & bound):
+        return e
+    if isinstance(e, ast.Lambda):
+        return None
+    if isinstance(e, (ast.ListComp, ast.SetComp, ast.DictComp, ast.GeneratorExp)):
+        bound = bound | {n.id for g in e.generators for n in ast.walk(g.target) if isinstance(n, ast.Name)}
+    if isinstance(e, (ast.Yield, ast.YieldFrom, ast.Await, ast.NamedExpr)):
+        return None
+    for c in ast.iter_child_nodes(e):
+        if isinstance(c, (ast.expr, ast.comprehension, ast.keyword)):
+            r = _nested_ifexp(c, bound)
+            if r is not None:
+                return r
+    return None
+
+
 def split_conditionals(fn):
     n = 0
     for owner, field, lst in _stmt_lists(fn):
@@ -1556,6 +1574,22 @@ def split_conditionals(fn):
                 lst[i] = new
                 n += 1
                 continue
+            if isinstance(st, (ast.Assign, ast.Return, ast.Expr)) and st.value is not None and not isinstance(st.value, ast.IfExp):
+                # a conditional value nested in the statement's expression (also inside a comprehension, when its test does not
+                # use the comprehension's variables): with an effect-free test the statement is an if/else over two copies
+                hit = _nested_ifexp(st.value)
+                if hit is not None and is_pure(hit.test) and not (
+                        {x.id for x in ast.walk(hit.test) if isinstance(x, ast.Name)} &
+                        {x.id for x in ast.walk(st) if isinstance(x, ast.Name) and isinstance(x.ctx, ast.Store)}):
+                    a_, b_ = copy.deepcopy(st), copy.deepcopy(st)
+                    ha, hb = _nested_ifexp(a_.value), _nested_ifexp(b_.value)
+                    _replace_node(a_, ha, ha.body)
+                    _replace_node(b_, hb, hb.orelse)
+                    new = ast.copy_location(ast.If(test=hit.test, body=[a_], orelse=[b_]), st)
+                    ast.fix_missing_locations(new)
+                    lst[i] = new
+                    n += 1
+                    continue
             if isinstance(st, ast.Return) and isinstance(st.value, ast.IfExp):
                 e = st.value
                 new = ast.copy_location(ast.If(test=e.test, body=[ast.copy_location(ast.Return(value=e.body), e.body)],
